@@ -55,7 +55,8 @@ func IndexFromFile(ctx context.Context,
 	if err == nil {
 		switch t := piece.(type) {
 		case FormatEntry:
-			index.Index.FeatureFlags |= t.FeatureFlags
+			// Everything but the digest flag, that is determined by the digest in use
+			index.Index.FeatureFlags |= t.FeatureFlags &^ CaFormatSHA512256
 		}
 	}
 	f.Close()
